@@ -133,6 +133,11 @@ def _check_returns(stmts):
             _check_returns(s.body)
             for h in s.handlers:
                 _check_returns(h.body)
+        elif isinstance(s, ast.Try) and _has_return(s) and not s.orelse and not s.finalbody and not any(_has_return(x) for x in s.body) \
+                and all(_always_ends(h.body) for h in s.handlers):
+            # "try: A  except E: return x" followed by more statements: those become the else clause
+            for h in s.handlers:
+                _check_returns(h.body)
         elif _has_return(s):
             raise NotInlinable('return inside %s' % type(s).__name__)
 
@@ -149,6 +154,14 @@ def _eliminate(stmts, sink):
             body = list(s.body) + ([] if _always_ends(s.body) else copy.deepcopy(rest))
             orelse = list(s.orelse) + ([] if _always_ends(s.orelse) else copy.deepcopy(rest))
             new = ast.If(test=s.test, body=_eliminate(body, sink) or [ast.Pass()], orelse=_eliminate(orelse, sink))
+            ast.copy_location(new, s)
+            return out + [new]
+        if isinstance(s, ast.Try) and _has_return(s) and i < len(stmts) - 1:
+            # handlers leave the helper, the body does not: what follows the try runs only when no
+            # handler did, i.e. it is the else clause (exceptions in it are not caught, as before)
+            new = ast.Try(body=list(s.body),
+                          handlers=[ast.copy_location(ast.ExceptHandler(type=h.type, name=h.name, body=_eliminate(list(h.body), sink) or [ast.Pass()]), h) for h in s.handlers],
+                          orelse=_eliminate(list(stmts[i + 1:]), sink), finalbody=[])
             ast.copy_location(new, s)
             return out + [new]
         if isinstance(s, ast.Try) and _has_return(s):
